@@ -224,6 +224,8 @@ def run(tier, replay=None):
         if len(sc) != 1:
             raise AnalysisBroken('C12: sort call not found in flag_complex_collapse_edges (%s)' % unit)
         args = ir.call_args(sc[0])
+        cmprules.check_whole_range(chk, 'E7b-arms', sc[0], '%s:%s' % (H, sc[0].get('l')),
+                                   'E7b|edge-sort|%s|whole-range' % unit, 'the edge sort (%s)' % unit)
         l = ir.skipcasts(args[-1])
         if l is None or l.get('k') != 'LambdaExpr':
             raise AnalysisBroken('C12: edge sort comparator is not a lambda')
